@@ -28,12 +28,13 @@ const GateBudget = 50000
 
 // Task is a goroutine of the code under test, named by role and ordinal of first appearance.
 type Task struct {
-	Name   string
-	Role   string
-	Point  string // where it is parked ("" = running or blocked inside the code)
-	wake   chan struct{}
-	credit int // remaining gate passes before it parks again
-	gid    uint64
+	Name     string
+	Role     string
+	Point    string // where it is parked ("" = running or blocked inside the code)
+	wake     chan struct{}
+	credit   int // remaining gate passes before it parks again
+	lockPass int // remaining Engine.mu acquisitions it may make without parking (only while the lock is free)
+	gid      uint64
 }
 
 type Kernel struct {
@@ -51,7 +52,9 @@ type Kernel struct {
 	Step      int
 	evHash    uint64
 	evCount   int
-	GateN     int // gate passes (evaluations) so far
+	GateN     int  // gate passes (evaluations) so far
+	lockHeld  bool // Engine.mu is held by a task of the code under test (engine.lock / engine.unlocked hooks)
+	lockBy    string
 	Ambiguous bool
 }
 
@@ -114,8 +117,8 @@ func roleOf(point string) string {
 		return "hard"
 	case strings.HasPrefix(point, "client"):
 		return point[:strings.IndexByte(point, '.')] // clientA.x, clientB.x: one role per simulated client
-	case strings.HasPrefix(point, "halt.") || strings.HasPrefix(point, "complete."):
-		return "anon"
+	case strings.HasPrefix(point, "halt.") || strings.HasPrefix(point, "complete.") || strings.HasPrefix(point, "engine."):
+		return "anon" // says nothing about who the caller is; the role is settled at the first telling point
 	}
 	return "search" // search.gate, iter.*, tt.*
 }
@@ -131,12 +134,21 @@ func (k *Kernel) Park(point string) {
 		k.mu.Unlock()
 		return
 	}
+	if point == "engine.unlocked" {
+		k.lockHeld, k.lockBy = false, ""
+		k.mu.Unlock()
+		return
+	}
 	tk := k.tasks[gid]
 	if tk == nil {
 		// named lazily by the controller (nameNew): two tasks of one role that first park in the same
 		// step (two timers fired by one clock advance) are ordered by goroutine creation, not by arrival
 		tk = &Task{Role: roleOf(point), gid: gid}
 		k.tasks[gid] = tk
+	} else if tk.Role == "anon" {
+		if r := roleOf(point); r != "anon" {
+			tk.Role, tk.Name = r, "" // renamed by the controller at its next look
+		}
 	}
 	// The gate consumes credit. Every other point parks unless it is pass-through in this run;
 	// the points in alwaysPark are never pass-through (determinism: see DESIGN.md 2.1).
@@ -147,6 +159,15 @@ func (k *Kernel) Park(point string) {
 		}
 		if tk.credit > 0 {
 			tk.credit--
+			k.mu.Unlock()
+			return
+		}
+	} else if point == "engine.lock" {
+		// A task never blocks on Engine.mu itself (synctest cannot see through a mutex): it parks here
+		// and is let go only while the lock is free; with lock passes it goes straight on.
+		if tk.lockPass > 0 && !k.lockHeld {
+			tk.lockPass--
+			k.lockHeld, k.lockBy = true, tk.Name
 			k.mu.Unlock()
 			return
 		}
@@ -213,7 +234,17 @@ func (k *Kernel) FindParked(role string) *Task {
 }
 
 // Release lets a parked task run on; credit is the number of further gate passes it may make without parking.
-func (k *Kernel) Release(t *Task, credit int) {
+func (k *Kernel) Release(t *Task, credit int) { k.ReleaseWith(t, credit, 1<<30) }
+
+// LockHeld: Engine.mu is held by some task; a task parked at engine.lock must not be released now.
+func (k *Kernel) LockHeld() bool {
+	k.mu.Lock()
+	defer k.mu.Unlock()
+	return k.lockHeld
+}
+
+// ReleaseWith also sets how many further Engine.mu acquisitions the task may make without parking.
+func (k *Kernel) ReleaseWith(t *Task, credit, lockPass int) {
 	k.mu.Lock()
 	idx := -1
 	for i, p := range k.parked {
@@ -229,6 +260,14 @@ func (k *Kernel) Release(t *Task, credit int) {
 	point := t.Point
 	t.Point = ""
 	t.credit = credit
+	t.lockPass = lockPass
+	if point == "engine.lock" {
+		if k.lockHeld {
+			k.mu.Unlock()
+			panic("sim: released a task into Engine.mu while it is held by " + k.lockBy)
+		}
+		k.lockHeld, k.lockBy = true, t.Name
+	}
 	ch := t.wake
 	k.mu.Unlock()
 	k.Event(t.Name + "@" + point)
@@ -249,6 +288,12 @@ func (k *Kernel) OverBudget() bool {
 	k.mu.Lock()
 	defer k.mu.Unlock()
 	return k.GateN > GateBudget || k.Ambiguous
+}
+
+func (k *Kernel) Work() int {
+	k.mu.Lock()
+	defer k.mu.Unlock()
+	return k.GateN
 }
 
 func (k *Kernel) InterleavingHash() uint64 { return k.evHash }
